@@ -628,6 +628,17 @@ def post_allocations(draw, d, v, defect=None, consumers=None):
     consumers = consumers or draw(st.lists(st.sampled_from(CONS), min_size=1,
                                            max_size=4, unique=True))
     labels = []
+    if defect is None and draw(st.integers(0, 9)) == 9:
+        # a consumer key in a spelling the schema admits but that is not the
+        # canonical one (upper case, or 36 hex digits without dashes): for
+        # placement simply another consumer; not the first entry
+        i = len(consumers) - 1
+        odd = draw(st.sampled_from(
+            [consumers[i].upper(),
+             (consumers[i].replace('-', '') + 'abcd')[:36]]))
+        if odd not in consumers and odd not in d.consumers:
+            consumers = list(consumers[:i]) + [odd]
+            labels.append('odd-consumer-uuid')
     body = {}
     bad_idx = draw(st.integers(0, len(consumers) - 1))
     seen_pairs = {}
@@ -717,10 +728,18 @@ def reshaper(draw, d, v, defect=None):
             labels.append('drops-class')
         newinv[u] = invs
         inv_body[u] = {
-            'resource_provider_generation': _gen_for(
-                draw, d, u, defect if defect == 'stale-gen' else None),
+            'resource_provider_generation': _gen_for(draw, d, u, None),
             'inventories': invs}
     if defect == 'stale-gen':
+        # exactly one of the named providers carries a stale generation
+        # (any position in the body)
+        u = draw(st.sampled_from(sorted(inv_body)))
+        inv_body[u]['resource_provider_generation'] = _gen_for(
+            draw, d, u, 'stale-gen')
+        if len(inv_body) > 1:
+            inv_body = {k: inv_body[k] for k in (
+                sorted(inv_body) if draw(st.booleans())
+                else sorted(inv_body, reverse=True))}
         labels.append('stale-gen')
     if defect == 'unknown-provider-inv':
         inv_body[GHOST_RP] = {'resource_provider_generation': 0,
